@@ -354,7 +354,25 @@ func calculateReuseIndexFor(r *Rule, oldResTcs []TrafficShapingController) (equa
 // buildResourceTrafficShapingController builds TrafficShapingController slice from rules. the resource of rules must be equals to res.
 func buildResourceTrafficShapingController(res string, resRules []*Rule, oldResTcs []TrafficShapingController) []TrafficShapingController {
 	newTcsOfRes := make([]TrafficShapingController, 0, len(resRules))
-	for _, rule := range resRules {
+	// Unchanged rules claim their old controller first. Otherwise a new or modified rule earlier in the
+	// list that is merely statistic-reusable with such an old controller would take its statistic and
+	// remove it from the candidates, and the unchanged rule would be rebuilt from scratch, losing its
+	// runtime state.
+	unchangedTcs := make([]TrafficShapingController, len(resRules))
+	for i, rule := range resRules {
+		if res != rule.Resource {
+			continue
+		}
+		if equalIdx, _ := calculateReuseIndexFor(rule, oldResTcs); equalIdx >= 0 {
+			unchangedTcs[i] = oldResTcs[equalIdx]
+			oldResTcs = append(oldResTcs[:equalIdx], oldResTcs[equalIdx+1:]...)
+		}
+	}
+	for i, rule := range resRules {
+		if unchangedTcs[i] != nil {
+			newTcsOfRes = append(newTcsOfRes, unchangedTcs[i])
+			continue
+		}
 		if res != rule.Resource {
 			logging.Error(errors.Errorf("unmatched resource name, expect: %s, actual: %s", res, rule.Resource), "Unmatched resource name in hotspot.buildResourceTrafficShapingController()", "rule", rule)
 			continue
